@@ -1356,3 +1356,29 @@ def narrowing_casts(P, pred):
                         out.append((f, bi, s, v, sty, rv["to"], fits(v, rv["to"])))
                     f.assign(st, s)
     return out
+
+
+def fn_key(path):
+    """Function identity used in instance keys: crate, the enclosing type (if the item is a method), the item name and `{closure}`
+    markers — but not the module path and not the items a nested fn happens to be declared in.  Moving a function to another module,
+    hoisting a nested fn to module level, or adding/removing another closure in the same parent leaves the key unchanged."""
+    p = re.sub(r"<impl [^>]*>+", "<impl>", path)
+    p = re.sub(r"::<[^<>]*(?:<[^<>]*>[^<>]*)*>", "", p)          # generic argument lists
+    p = re.sub(r"\{closure#\d+\}", "{closure}", p)
+    segs = p.split("::")
+    if len(segs) <= 2:
+        return p
+    crate = segs[0]
+    # trailing closures belong to the nearest named item
+    i = len(segs) - 1
+    tail = []
+    while i > 0 and segs[i] == "{closure}":
+        tail.insert(0, segs[i])
+        i -= 1
+    name = segs[i]
+    owner = segs[i - 1] if i - 1 > 0 else None
+    keep = [crate]
+    if owner and (owner[:1].isupper() or owner == "<impl>"):
+        keep.append(owner)
+    keep.append(name)
+    return "::".join(keep + tail)
